@@ -25,9 +25,12 @@ def check(mon, ev):
         return
     C = [fr(c) for c in cs]
     want = [(i + 1) * C[i + 1] for i in range(n)]
-    if not all(in_domain(abs(w)) for w in want):
-        mon.count("out_of_domain")
+    FMAX, FMIN = fr(1.7976931348623157e308), fr(2.2250738585072014e-308)
+    if not all(w == 0 or FMIN <= abs(w) <= FMAX for w in want):
+        mon.count("out_of_domain")       # the exact product itself is not a normal double
         return
+    if any(abs(w) > Fraction(2) ** 1000 for w in want):
+        mon.count("coefficients_near_overflow_checked")
     for i in range(n):
         if not finite(D[i]):
             mon.violation("derivative returns a non-finite coefficient", wit)
@@ -48,7 +51,7 @@ def check(mon, ev):
     X = fr(x)
     aX = abs(X)
     terms = [abs(want[i]) * aX ** i for i in range(n)]
-    if not all(in_domain(t) for t in terms) or (aX != 0 and not all(in_domain(aX ** i) for i in range(1, n))):
+    if not all(in_domain(abs(w)) for w in want) or not all(in_domain(t) for t in terms) or (aX != 0 and not all(in_domain(aX ** i) for i in range(1, n))):
         mon.count("out_of_domain_value")
         return
     if not finite(Dx):
